@@ -693,6 +693,49 @@ func runC15(c *Ctx) {
 		c.Cmp("enc-header", fmt.Sprintf("c15 enc %s %s %s", hexs([]byte(text)), hs, sj), goOut)
 	}
 
+	// ---------------- Kanji mode: every double-byte Shift_JIS character the mode can carry ----------------
+	// (both ranges 0x8140-0x9FFC and 0xE040-0xEBBF incl. their first and last codes; 48 characters per symbol)
+	{
+		ks := c01KanjiRunes()
+		nchunks := (len(ks) + 47) / 48
+		c.Parallel(nchunks, 16, func(i int, rr *Rng) {
+			hi := (i + 1) * 48
+			if hi > len(ks) {
+				hi = len(ks)
+			}
+			text := string(ks[i*48 : hi])
+			hints := map[gozxing.EncodeHintType]interface{}{gozxing.EncodeHintType_CHARACTER_SET: "Shift_JIS"}
+			got := Safe(func() string {
+				q, e := encoder.Encoder_encode(text, decoder.ErrorCorrectionLevel_M, hints)
+				if e != nil {
+					return "ERR:" + errKind(e)
+				}
+				c.Note("kanji-sweep-mode:" + q.GetMode().String())
+				_, res := cqrGoDecode(cqrBitMatrixOf(q.GetMatrix()), cqrNoHint())
+				if res == nil {
+					return "ERR:decode"
+				}
+				return res.GetText()
+			})
+			ok := got == text
+			det := ""
+			if !ok {
+				gr, tr := []rune(got), []rune(text)
+				for k := range tr {
+					if k >= len(gr) || gr[k] != tr[k] {
+						det = fmt.Sprintf("first difference at character %d: wrote U+%04X", k, tr[k])
+						break
+					}
+				}
+				if det == "" {
+					det = "decoded " + c05Short(got)
+				}
+			}
+			c.Oracle("charset-roundtrip", ok, "kanji-sweep", "qr kanji text="+hexs([]byte(text))+" hint=Shift_JIS", det)
+		})
+		c.NoteN("kanji-sweep-characters", len(ks))
+	}
+
 	// ---------------- no hint: valid UTF-8 reads back as itself ----------------
 	nu := c.Pick(12000, 200000)
 	c.Parallel(nu, 16, func(i int, rr *Rng) {
